@@ -174,6 +174,9 @@ func genCase(r *vh.Rand, id string, size int) string {
 	}
 	g.cc(0, 1, "a1")
 	g.cc(0, 2, "a2")
+	if !r.Chance(1, 30) {
+		g.ops = append(g.ops, "b")
+	}
 	savedSince := false
 	for i := 0; i < size; i++ {
 		switch x := r.Intn(100); {
@@ -222,7 +225,7 @@ func genCase(r *vh.Rand, id string, size int) string {
 }
 
 func gen(a vh.Args) {
-	n := 400
+	n := 1500
 	if a.Tier == "thorough" {
 		n = 20000
 	}
